@@ -220,6 +220,18 @@ theorem removeCharacterSites_unfold (test : Nat → Nat → Bool) (rows : CRows)
   have : ¬ ((L : Int) < 0) := by omega
   simp [this]
 
+/-- the qualification list used by `RemoveMajorityCharacterSites` is the cutoff test on the majority
+counts of `MaxCharStats` (C14: independent of the map iteration order), computed with the wildcard of
+the alignment's own alphabet; every theorem above about `removeSites` applies to it unchanged -/
+theorem removeMajoritySites_unfold (test : Nat → Nat → Bool) (rows : CRows) (L : Nat) (alphabet : Nat)
+    (ends ig iN : Bool) :
+    removeMajoritySites test rows (L : Int) alphabet ends ig iN =
+      removeSites rows L ((List.range L).map fun j =>
+        test (maxCharSite alphabet ig iN (columnAt rows j)).2.1 (maxCharSite alphabet ig iN (columnAt rows j)).2.2) ends := by
+  unfold removeMajoritySites
+  have : ¬ ((L : Int) < 0) := by omega
+  simp [this]
+
 /-- the wildcard follows the alphabet: `X`/`x` for proteins, `N`/`n` otherwise -/
 theorem wildcard_follows_alphabet :
     wildcard AMINOACIDS = (88, 120) ∧ wildcard NUCLEOTIDS = (78, 110) ∧ wildcard UNKNOWN = (78, 110) := by decide
